@@ -45,4 +45,46 @@ theorem not_implemented_only_for_other_method (i : Input) (h : status i = httpNo
     · simp only [hm, Bool.false_eq_true, if_false] at h
       exact blame_501_needs_method _ _ _ h
 
+/-- which element a request with a *standard* method is told to shorten: the field lines (431) when
+    they dominate the request target by the code's thresholds, otherwise the target (414) -/
+def headersDominate (opt uri hl : Nat) : Bool :=
+  if maxReasonableHeaders < opt then decide (opt > uri / 8)
+  else if maxReasonableTarget < uri then false
+  else if minReasonableHeaders < opt then decide (opt * 4 > uri)
+  else if minReasonableTarget < uri then false
+  else if 1 < opt ∨ 1 < uri then decide (opt ≥ uri)
+  else decide (hl ≠ 0)
+
+theorem blame_std_method (opt uri hl : Nat) :
+    blame opt uri 0 hl = if headersDominate opt uri hl then httpHeaderFieldsTooLarge else httpUriTooLong := by
+  unfold blame headersDominate
+  by_cases c1 : maxReasonableHeaders < opt <;> by_cases c2 : opt > uri / 8 <;> by_cases c3 : maxReasonableTarget < uri <;>
+    by_cases c4 : minReasonableHeaders < opt <;> by_cases c5 : opt * 4 > uri <;> by_cases c6 : minReasonableTarget < uri <;>
+    by_cases c7 : (1 < opt ∨ 1 < uri) <;> by_cases c8 : opt ≥ uri <;> by_cases c9 : hl ≠ 0 <;>
+    simp [c1, c2, c3, c4, c5, c6, c7, c8, c9] <;>
+    (simp only [maxReasonableHeaders, maxReasonableTarget, minReasonableHeaders, minReasonableTarget] at *; omega)
+
+/-- 413 is chosen exactly for an over-long chunk-size line -/
+theorem status_413_iff (i : Input) :
+    status i = httpContentTooLarge ↔ (i.stage = stageBodyChunked ∧ minReasonableChunkLine < i.addSize) := by
+  unfold status
+  constructor
+  · intro h
+    split at h
+    · assumption
+    · rcases blame_in_set (hostSplit i).2 i.uri (if i.methodOther then i.methodLen else 0) (hostSplit i).1 with e | e | e <;>
+        rw [e] at h <;> simp [httpContentTooLarge, httpUriTooLong, httpHeaderFieldsTooLarge, httpNotImplemented] at h
+  · intro h; rw [if_pos h]
+
+/-- a request with a standard method: 413 for the chunk-size line, otherwise 431 / 414 by what dominates -/
+theorem status_std_method (i : Input) (hm : i.methodOther = false) :
+    status i = if i.stage = stageBodyChunked ∧ minReasonableChunkLine < i.addSize then httpContentTooLarge
+               else if headersDominate (hostSplit i).2 i.uri (hostSplit i).1 then httpHeaderFieldsTooLarge
+               else httpUriTooLong := by
+  unfold status
+  split
+  · rfl
+  · simp only [hm, Bool.false_eq_true, if_false]
+    exact blame_std_method _ _ _
+
 end Mhd.NoSpace
